@@ -57,6 +57,61 @@ class Ctx:
     def touch(self, fn):
         self.functions.add('%s @ %s' % (fn.qn, fn.loc()))
 
+    def memo(self, name, files, fn, *args):
+        """Run the rule group fn(ctx, *args), or replay its recorded outcome when the same group was already decided for the same
+        facts: the key is the content of every function of the current tree defined in `files` (as extracted from the current
+        source), the tier and the checker's own sources. A content-addressed cache like build/facts/: nothing is assumed about the
+        tree, an edit to any of those functions (or to the checker) gives another key. Only for groups whose verdict depends on
+        nothing but those functions (the interpretation rules: they are the expensive ones)."""
+        import hashlib
+        from . import facts
+        h = hashlib.sha1()
+        h.update(('%s|%s|%s|' % (self.pid, name, self.tier)).encode())
+        h.update(_checker_hash().encode())
+        fs = sorted((f for f in self.db.functions if facts.relpath(f.file) in files and f.body is not None), key=lambda f: (facts.relpath(f.file), f.line, f.qn, f.sig or '', f.targs or ''))
+        seen = set()
+        for f in fs:
+            k = (facts.relpath(f.file), f.line, f.qn, f.targs or '')
+            if k in seen:
+                continue
+            seen.add(k)
+            h.update(('%s|%s|%s|' % k[:3]).encode())
+            h.update(_fn_text(f).encode())
+        path = os.path.join(VERIF, 'build', 'memo', '%s-%s-%s.json' % (self.pid, re.sub(r'\W+', '_', name), h.hexdigest()[:24]))
+        if os.path.exists(path) and not os.environ.get('GDSTK_SA_NO_MEMO'):
+            try:
+                with open(path) as fh:
+                    rec = json.load(fh)
+                for o in rec['obs']:
+                    self.obs.append(Ob(o['rule'], o['key'], o['loc'], o['status'], o['what'], o.get('path')))
+                self.mins.extend(tuple(m) for m in rec['mins'])
+                self.functions.update(rec['functions'])
+                for k, v in rec['explored'].items():
+                    self.explored[k] = self.explored.get(k, 0) + v
+                self.broken.extend(rec['broken'])
+                self.extra.setdefault('memo_hits', []).append(name)
+                return None
+            except (ValueError, KeyError, OSError):
+                pass
+        n_obs, n_min, n_br = len(self.obs), len(self.mins), len(self.broken)
+        f0, e0 = set(self.functions), dict(self.explored)
+        try:
+            fn(self, *args)
+        except AnalysisBroken as e:
+            self.broken.append(str(e))
+        rec = {'obs': [{'rule': o.rule, 'key': o.key, 'loc': o.loc, 'status': o.status, 'what': o.what, 'path': o.path} for o in self.obs[n_obs:]],
+               'mins': [list(m) for m in self.mins[n_min:]], 'functions': sorted(self.functions - f0),
+               'explored': {k: self.explored.get(k, 0) - e0.get(k, 0) for k in self.explored}, 'broken': self.broken[n_br:]}
+        try:
+            os.makedirs(os.path.dirname(path), exist_ok=True)
+            tmp = '%s.%d.tmp' % (path, os.getpid())
+            with open(tmp, 'w') as fh:
+                json.dump(rec, fh)
+            os.replace(tmp, path)
+        except OSError:
+            pass
+        return None
+
     def ok(self, rule, key, loc, what=''):
         self.obs.append(Ob(rule, key, loc, 'ok', what))
 
@@ -99,6 +154,29 @@ class Ctx:
 
     def violations(self, rule=None):
         return [o for o in self.obs if o.status == 'violation' and (rule is None or o.rule == rule)]
+
+
+_CHK = [None]
+
+
+def _checker_hash():
+    if _CHK[0] is None:
+        import hashlib
+        import glob
+        h = hashlib.sha1()
+        for p_ in sorted(glob.glob(os.path.join(VERIF, 'sa', '*.py')) + glob.glob(os.path.join(VERIF, 'sa', 'props', '*.py')) + glob.glob(os.path.join(VERIF, 'sa', '*.json'))):
+            with open(p_, 'rb') as fh:
+                h.update(fh.read())
+        _CHK[0] = h.hexdigest()
+    return _CHK[0]
+
+
+def _fn_text(f):
+    """the canonical tree of a function as text, with line numbers (they appear in reports)"""
+    out = []
+    for n in f.body.walk():
+        out.append('%s:%s:%s:%s:%s:%s:%s:%s:%s:%s:%s:%d' % (n.k, n.l, n.op or '', n.n or '', n.callee or '', n.t or '', n.cv if n.cv is not None else '', n.fv if n.fv is not None else '', n.qn or '', n.cast or '', n.dk or '', len(n.c)))
+    return '%s|%s|%s\n' % (f.ret, [(p_.get('n'), p_.get('t')) for p_ in f.params], f.linkage) + '\n'.join(out)
 
 
 def load_known():
